@@ -389,6 +389,73 @@ def judge_load(acc, case, entries, chip, app_id, prefill=None, via="entries",
                 return
 
 
+def judge_load_history(acc):
+    """One controller, one chip: a load that cannot be allocated, then the
+    other application's entries are cleared, then the same load again (and
+    the other way round: load, fill up, fail, clear, load)."""
+    from rig.routing_table import RoutingTableEntry, Routes
+    from rig.machine_control.machine_controller import SpiNNakerRouterError
+    n = 5
+    e = [([i, 6 + i], 0x100 + i, 0xffffff00) for i in range(n)]
+    rtes = [RoutingTableEntry({Routes(r) for r in rs}, key, mask)
+            for rs, key, mask in e]
+    want = [(key, mask, route_word(rs), 66) for rs, key, mask in e]
+    for chip in ((0, 0), (1, 2)):
+        for via in ("entries", "tables"):
+            sim = SimMachine(repo(), 2, 3)
+            c = sim.chips[chip]
+            for i in range(1, 1024 - n + 1):
+                c.router[i] = (0x1234, 0xffff, 1, 9)
+            sim.full_sync_chips = {chip}
+            case = dict(part="router", sub="history", chip=list(chip),
+                        via=via)
+            acc.evaluations += 1
+            acc.nontrivial += 1
+
+            def load(mc):
+                try:
+                    if via == "entries":
+                        mc.load_routing_table_entries(rtes, chip[0], chip[1],
+                                                      66)
+                    else:
+                        mc.load_routing_tables({chip: rtes}, 66)
+                    return "loaded"
+                except SpiNNakerRouterError:
+                    return "router_error"
+            with Session(sim) as s:
+                try:
+                    before = list(c.router)
+                    first = load(s.mc)
+                    mid = list(c.router)
+                    s.mc.clear_routing_table_entries(chip[0], chip[1], 9)
+                    cleared = list(c.router)
+                    second = load(s.mc)
+                except Exception as ex:
+                    acc.violation(dict(kind="exception",
+                                       exc=type(ex).__name__), case,
+                                  "history raised %s: %s"
+                                  % (type(ex).__name__, ex))
+                    continue
+                new = [i for i in range(1024) if c.router[i] != cleared[i]]
+                if first != "router_error" or mid != before:
+                    acc.violation(dict(kind="missing_router_error"), case,
+                                  "first load (one entry short): %s" % first)
+                elif any(x is not None and x[3] == 9 for x in cleared):
+                    acc.violation(dict(kind="harness"), case,
+                                  "clearing did not free the entries")
+                elif second != "loaded" or \
+                        [c.router[i] for i in new] != want:
+                    acc.violation(
+                        dict(kind="load_after_failed_load"), case,
+                        "a table of %d entries could not be allocated; the "
+                        "other application's entries were cleared; loading "
+                        "it again: %s, router entries changed: %r"
+                        % (n, second, [(i, c.router[i]) for i in new][:6]))
+                if sim.errors:
+                    acc.violation(dict(kind="malformed_command"), case,
+                                  "machine saw: %s" % sim.errors[0])
+
+
 KM = [(0, 0), (1, 1), (0x80000000, 0x80000000), (0xffffffff, 0xffffffff),
       (0xa5a5a5a5, 0xffff0000), (0xbeef, 0xffff0000)]
 
@@ -446,6 +513,7 @@ def part_router(sub, tier, acc, k=None):
             judge_load(acc, dict(part="router", sub=sub, entries=e,
                                  chip=[0, 0], app=66), e, [0, 0], 66)
     elif sub == "freelist":
+        judge_load_history(acc)
         n = 5
         states = {
             "empty": [],
@@ -571,6 +639,8 @@ def replay(case, acc):
         sk = [(fam[t], A if (i == 0 or case["same"]) else B)
               for i, t in enumerate(case["trees"])]
         judge_trees(sk, acc, case)
+    elif case.get("sub") == "history":
+        judge_load_history(acc)
     else:
         part_router(case["sub"], "quick", acc)
 
